@@ -109,6 +109,13 @@ func (m *innovMonitor) Constructed(c *Ctx, sc *EvoScenario, pop *genetics.Popula
 			return
 		}
 	}
+	if sc.restoring {
+		// a population restored from its written form is a new population: all it knows (and all its counters can be
+		// initialised from) are the genomes stored, so its history starts with them. Numbers which only organisms that died
+		// before the store carried may be issued again.
+		m.links = map[int64]linkKey{}
+		m.roles = map[int]byte{}
+	}
 	if sc.Ctor == ctorRandom {
 		// randomly constructed genomes number their genes by the cell of the connection matrix: consistent by construction
 		c.Count("populations.random", 1)
